@@ -505,6 +505,7 @@ func (fr *Frame) inline(f *ssa.Function, ci *closureInfo, args []Term, st *State
 func (fr *Frame) specEnv(st *State, pc Term) *Env {
 	vc := fr.vc
 	env := &Env{vc: vc, vars: map[string]TV{}, st: st, old: fr.entry, fr: fr}
+	env.capOld = len(fr.fn.FreeVars) > 0
 	if fr.fn.Pkg != nil {
 		env.pkg = fr.fn.Pkg.Pkg
 		env.pkgKey = shortPkg(fr.fn.Pkg.Pkg.Path())
@@ -535,6 +536,7 @@ func (fr *Frame) modularCall(fc *FuncContract, callee *ssa.Function, c *ssa.Call
 		// clauses of a closure contract may name captured variables: they are
 		// the caller's own locals
 		env.fr = fr
+		env.capOld = true
 	}
 	// parameter names
 	names := calleeParamNames(fc, callee, c, sig)
@@ -603,6 +605,7 @@ func (fr *Frame) modularCall(fc *FuncContract, callee *ssa.Function, c *ssa.Call
 	post := &Env{vc: vc, vars: map[string]TV{}, st: st, old: pre, pkg: env.pkg, pkgKey: fc.Pkg}
 	if isClosure {
 		post.fr = fr
+		post.capOld = true
 	}
 	for k, v := range env.vars {
 		post.vars[k] = v
